@@ -548,6 +548,7 @@ int main(int argc, char **argv) {
         model.max_states = 20000000ull;
         double t0 = v_now();
         esx_run(&model);
+        ESX_CYCLES(&model);
         v_out("INFO %s: page %zu, %d ops, depth %d, %.1f s", model.name, PAGE, NOPS, model.max_depth, v_now() - t0);
     }
     v_finish();
